@@ -27,6 +27,7 @@ import (
 	"encoding/hex"
 	"fmt"
 	"hash"
+	"regexp"
 	"strings"
 
 	"github.com/9elements/converged-security-suite/v2/pkg/bootflow/subsystems/trustchains/tpm"
@@ -36,7 +37,7 @@ import (
 	"verifharness/gal"
 )
 
-const header = "From Coq Require Import Init.Byte.\nFrom CSS Require Import Lib.Base Lib.Cases Model.TPM Model.TPMPool Model.TPMCases."
+const header = "From Coq Require Import Init.Byte.\nFrom CSS Require Import Lib.Base Lib.Cases Model.TPM Model.TPMPool Model.TPMExec Model.TPMCases."
 
 const site = "pkg/bootflow/subsystems/trustchains/tpm"
 
@@ -182,6 +183,11 @@ func (r *refTPM) exec(c cmdT) bool {
 		return true
 	}
 	r.log = append(r.log, c)
+	return r.apply(c)
+}
+
+// apply is the effect of one command on the reference TPM (the command log is the caller's business).
+func (r *refTPM) apply(c cmdT) bool {
 	switch c.kind {
 	case kStartup:
 		if r.started {
@@ -201,6 +207,11 @@ func (r *refTPM) exec(c cmdT) bool {
 			return false
 		}
 		h := newHash(c.a)
+		if h == nil || len(old) != h.Size() {
+			// only after PCRValues.Set (API-level cases): what sits in the bank is not a PCR value
+			// of this algorithm; a reference TPM has nothing to extend
+			return false
+		}
 		msg := append(append([]byte{}, old...), c.d...)
 		h.Write(msg)
 		nv := h.Sum(nil)
@@ -248,6 +259,126 @@ func runCmd(t *tpm.TPM, c cmdT) (class int, msg string) {
 		return 1, err.Error()
 	}
 	return 0, ""
+}
+
+var rePCRBank = regexp.MustCompile(`PCR \d+:`)
+
+// errKind classifies an error message by the statement that produces it; the
+// numbers are the ERR_* codes of Model/TPM.v (9: none of them).
+func errKind(msg string) int {
+	switch {
+	case strings.Contains(msg, "already initialized"):
+		return 1
+	case strings.Contains(msg, "invalid hash algo"):
+		return 2
+	case strings.Contains(msg, "internal error"):
+		return 5
+	case strings.Contains(msg, "is not initialized"):
+		if rePCRBank.MatchString(msg) {
+			return 4
+		}
+		return 3
+	}
+	return 9
+}
+
+var errNames = map[int]string{1: "already-initialized", 2: "invalid-hash-algo", 3: "no-such-pcr", 4: "no-such-bank", 5: "bank-length", 9: "other"}
+
+func outcomeName(class, ek int) string {
+	switch class {
+	case 0:
+		return "ok"
+	case 2:
+		return "panic"
+	}
+	return "err:" + errNames[ek]
+}
+
+// classes of the generated arguments, for the input distribution of the evidence
+func algClass(a uint16) string {
+	switch {
+	case a == 4:
+		return "sha1"
+	case a == 0xB:
+		return "sha256"
+	case a == 0xC:
+		return "sha384(first id without bank)"
+	case a == 0xD:
+		return "sha512"
+	case a >= 39 && a <= 41:
+		return "sha3"
+	case a >= 0xFFFE:
+		return "0xfffe-0xffff(pool edge)"
+	case a == 0:
+		return "0"
+	case a < 12:
+		return "bank slot, not a hash"
+	}
+	return "other 16-bit"
+}
+
+func pcrClass(p uint8) string {
+	switch p {
+	case 0, 1, 2, 255:
+		return fmt.Sprint(p)
+	}
+	return "3..254"
+}
+
+func digestClass(a uint16, n int) string {
+	size := 0
+	if h := newHash(a); h != nil {
+		size = h.Size()
+	}
+	switch {
+	case n == 0:
+		return "0"
+	case size > 0 && n == size:
+		return "=hash size"
+	case size > 0 && n == size-1:
+		return "hash size-1"
+	case size > 0 && n == size+1:
+		return "hash size+1"
+	case n == 20 || n == 32:
+		return "20|32 (other algorithm's size)"
+	}
+	return "other<=64"
+}
+
+func countCmd(dist map[string]int, cm cmdT, class, ek int, started bool) {
+	dist["outcome:"+cmdNames[cm.kind]+":"+outcomeName(class, ek)]++
+	switch cm.kind {
+	case kExtend:
+		dist["extend:alg:"+algClass(cm.a)]++
+		dist["extend:pcr:"+pcrClass(cm.p)]++
+		dist["extend:digest-len:"+digestClass(cm.a, len(cm.d))]++
+		if !started {
+			dist["extend:on-not-started-tpm"]++
+		}
+	case kStartup:
+		switch cm.l {
+		case 0, 3, 255:
+			dist[fmt.Sprintf("startup:locality:%d", cm.l)]++
+		default:
+			dist["startup:locality:other"]++
+		}
+	case kLogAdd:
+		if cm.dataNil {
+			dist["eventlogadd:data:nil"]++
+		} else if len(cm.data) == 0 {
+			dist["eventlogadd:data:empty"]++
+		} else {
+			dist["eventlogadd:data:bytes"]++
+		}
+	}
+}
+
+func mergeDist(c *gal.Ctx, dist map[string]int) {
+	for k, n := range dist {
+		for i := 0; i < n; i++ {
+			c.Count(k)
+		}
+	}
 }
 
 // the grid of Model/TPMCases.v get_grid
@@ -346,37 +477,9 @@ func renderRef(l []cmdT) string {
 // Returns "" or a description of the first disagreement.
 func oracleStep(t *tpm.TPM, ref *refTPM, cm cmdT, class int, pmsg string, refOK bool,
 	gobs []getObs, cl []cmdT, clOK bool, el []cmdT) string {
-	bad := ""
-	switch {
-	case class == 2:
-		bad = "command panicked: " + pmsg
-	case refOK && class != 0:
-		bad = "reference TPM executes the command, implementation returned an error: " + pmsg
-	case !refOK && class == 0:
-		bad = "command cannot be executed on the reference TPM, implementation returned no error"
-	}
+	bad := oracleVerdict(class, pmsg, refOK)
 	if bad == "" {
-		for j, pa := range grid {
-			want, has := ref.banks[[2]int{pa[0], pa[1]}]
-			g := gobs[j]
-			switch {
-			case g.class == 2:
-				bad = fmt.Sprintf("PCRValues.Get(%d, 0x%x) panicked", pa[0], pa[1])
-			case has && g.class != 0:
-				bad = fmt.Sprintf("PCRValues.Get(%d, 0x%x) fails, reference value %x", pa[0], pa[1], want)
-			case has && !bytes.Equal(g.val, want):
-				bad = fmt.Sprintf("PCR %d bank 0x%x is %x, reference TPM has %x", pa[0], pa[1], g.val, want)
-			case !has && g.class == 0 && len(g.val) != 0:
-				bad = fmt.Sprintf("PCR %d bank 0x%x holds %x, the reference TPM has no such bank", pa[0], pa[1], g.val)
-			case !has && g.class == 0 && (pa[0] >= 2 || pa[1] >= 12) && ref.started:
-				bad = fmt.Sprintf("PCRValues.Get(%d, 0x%x) succeeds for a PCR/bank that does not exist", pa[0], pa[1])
-			case !ref.started && g.class == 0:
-				bad = fmt.Sprintf("PCRValues.Get(%d, 0x%x) succeeds on a TPM that was not started", pa[0], pa[1])
-			}
-			if bad != "" {
-				break
-			}
-		}
+		bad = oracleBanks(ref, gobs)
 	}
 	if bad == "" && cm.kind == kReset {
 		// a reset object is indistinguishable from a new one, SupportedAlgos included
@@ -420,6 +523,42 @@ func oracleStep(t *tpm.TPM, ref *refTPM, cm cmdT, class int, pmsg string, refOK 
 		}
 	}
 	return bad
+}
+
+// oracleVerdict: a command the reference TPM executes returns nil, one it cannot execute returns an error, nothing panics.
+func oracleVerdict(class int, pmsg string, refOK bool) string {
+	switch {
+	case class == 2:
+		return "command panicked: " + pmsg
+	case refOK && class != 0:
+		return "reference TPM executes the command, implementation returned an error: " + pmsg
+	case !refOK && class == 0:
+		return "command cannot be executed on the reference TPM, implementation returned no error"
+	}
+	return ""
+}
+
+// oracleBanks: PCRValues.Get over the grid against the banks of the reference TPM.
+func oracleBanks(ref *refTPM, gobs []getObs) string {
+	for j, pa := range grid {
+		want, has := ref.banks[[2]int{pa[0], pa[1]}]
+		g := gobs[j]
+		switch {
+		case g.class == 2:
+			return fmt.Sprintf("PCRValues.Get(%d, 0x%x) panicked", pa[0], pa[1])
+		case has && g.class != 0:
+			return fmt.Sprintf("PCRValues.Get(%d, 0x%x) fails, reference value %x", pa[0], pa[1], want)
+		case has && !bytes.Equal(g.val, want):
+			return fmt.Sprintf("PCR %d bank 0x%x is %x, reference TPM has %x", pa[0], pa[1], g.val, want)
+		case !has && g.class == 0 && len(g.val) != 0:
+			return fmt.Sprintf("PCR %d bank 0x%x holds %x, the reference TPM has no such bank", pa[0], pa[1], g.val)
+		case !has && g.class == 0 && (pa[0] >= 2 || pa[1] >= 12) && ref.started:
+			return fmt.Sprintf("PCRValues.Get(%d, 0x%x) succeeds for a PCR/bank that does not exist", pa[0], pa[1])
+		case !ref.started && g.class == 0:
+			return fmt.Sprintf("PCRValues.Get(%d, 0x%x) succeeds on a TPM that was not started", pa[0], pa[1])
+		}
+	}
+	return ""
 }
 
 // a canonical prefix that leaves non-zero data in every recycled buffer
@@ -624,10 +763,11 @@ type objRun struct {
 	okExtends int
 	failStep  int // first step the oracle rejected, -1 if none
 	failWhat  string
+	dist      map[string]int // input distribution: outcomes per command kind, argument classes
 }
 
 func newObjRun(t *tpm.TPM, hist []cmdT, fullAt []bool) *objRun {
-	o := &objRun{t: t, ref: &refTPM{}, hist: hist, fullAt: fullAt, failStep: -1}
+	o := &objRun{t: t, ref: &refTPM{}, hist: hist, fullAt: fullAt, failStep: -1, dist: map[string]int{}}
 	o.ref.reset()
 	// baseline of the delta observations: a new TPM
 	o.prevGets = make([]getObs, len(grid))
@@ -651,6 +791,11 @@ func fullSteps(c *gal.Ctx, n int, segEnd map[int]bool) []bool {
 func (o *objRun) step(i int) string {
 	t, ref, cm := o.t, o.ref, o.hist[i]
 	class, pmsg := runCmd(t, cm)
+	ek := 0
+	if class == 1 {
+		ek = errKind(pmsg)
+	}
+	countCmd(o.dist, cm, class, ek, ref.started)
 	refOK := ref.exec(cm)
 	if refOK && cm.kind == kExtend {
 		o.okExtends++
@@ -690,8 +835,8 @@ func (o *objRun) step(i int) string {
 		full = "(Some " + gal.Pair(gal.List(cls), gal.List(els)) + ")"
 	}
 	r := [...]string{"(OOk tt)", "OErr", "OPanic"}[class]
-	o.steps = append(o.steps, gal.Pair(cm.lit(), fmt.Sprintf("(SO %s %s %s %d %d %s)",
-		r, gal.List(gets), algos, len(cl), len(el), full)))
+	o.steps = append(o.steps, gal.Pair(cm.lit(), fmt.Sprintf("(SO %s %d %s %s %d %d %s)",
+		r, ek, gal.List(gets), algos, len(cl), len(el), full)))
 
 	// ---- oracle: compare with the reference TPM
 	o.checks++
@@ -739,6 +884,7 @@ func runCase(c *gal.Ctx, kind string, t *tpm.TPM, hist []cmdT, segEnd map[int]bo
 	for _, cm := range hist {
 		c.Count("cmd:" + cmdNames[cm.kind])
 	}
+	mergeDist(c, o.dist)
 }
 
 func genLife(c *gal.Ctx, maxSeg, maxLen int) ([]cmdT, map[int]bool) {
@@ -764,7 +910,7 @@ func genLife(c *gal.Ctx, maxSeg, maxLen int) ([]cmdT, map[int]bool) {
 
 func main() {
 	installHashWrappers() // before anything can put a hasher into the pool
-	c := gal.New("C02", header, 125)
+	c := gal.New("C02", header, 145)
 	shared := tpm.NewTPM()
 	vets := []*tpm.TPM{shared, tpm.NewTPM(), tpm.NewTPM(), tpm.NewTPM()}
 
@@ -780,6 +926,7 @@ func main() {
 	nRandom := c.Scale(1250, 12000)
 	nConc := c.Scale(170, 1600)
 	nPar := c.Scale(6, 40)
+	nExec := c.Scale(330, 3000)
 	total := nSweep + nRandom
 	for i := 0; i < total; i++ {
 		// objects driven at the same time, spread evenly over the run (and over the shards)
@@ -788,6 +935,9 @@ func main() {
 		}
 		if (i+1)*nPar/total > i*nPar/total {
 			runParCase(c, vets)
+		}
+		if (i+1)*nExec/total > i*nExec/total {
+			runExecCase(c)
 		}
 		var hist []cmdT
 		segEnd := map[int]bool{}
@@ -826,5 +976,9 @@ func main() {
 		"each objects-scheduled case = 2-3 *TPM objects (new or reused), one goroutine each, own histories of 2..12 commands mostly extending the same bank algorithm, " +
 		"under GOMAXPROCS(1) with a PRNG-driven scheduler that moves control at the entry/exit of every Write/Sum/Reset of the pooled hashers (crypto.RegisterHash wrappers) and between commands; " +
 		"each objects-parallel case = 4 *TPM objects driven by really parallel goroutines; in both every object is judged against its own history alone; " +
+		"each api/... case = ONE *TPM (new, zero value &TPM{}, or one object reused by all such cases) driven through 2..24 operations of the API level: TPMExecute of single commands (directly or through the wrappers) and of Commands slices " +
+		"(0..5 sub-commands, nested ones, a sub-command that cannot be executed at the first/middle/last position), each with or without a cause provider, direct Apply, PCRValues.Set (value length = hash size, -1, +1, 0, x2; missing pcr/bank), " +
+		"Reset followed by TPMExecute(log.Commands()), the log executed again on the object itself, resets; after every fifth operation and the last one CommandLog.Commands().Apply(ctx, NewTPM()) is observed as well; " +
+		"outcome:* / extend:* / startup:* / eventlogadd:* / api:* in the distribution count commands and operations by result (error kinds by the statement that produced the message) and by argument class; " +
 		"a case is non-trivial when at least one extend succeeds; distinct = distinct Gallina literal")
 }
